@@ -6,6 +6,9 @@
  2. code -> spec: seeded random workloads on a real ThreadPool under the controlled scheduler (every hooked operation is a
     pre-emption point): PoolAbs monitor + deadlock detector; the recorded traces of a subset (critical-section events emitted by
     the code, handler calls, wake-ups and joins observed by the scheduler) are validated line by line against TPImpl by TLC.
+ 3. free-running: bigger workloads (pool of 1-4 threads, 1-6 clients, up to 40 Messages each) on real threads without the scheduler
+    (real blocking, timing noise at the hooks, a third of the runs with a concurrent shutdown); the same clauses evaluated with
+    atomics, a watchdog for an UnregisterClient / Shutdown that never returns.
 """
 import concurrent.futures as cf, os, re
 import vlib
@@ -45,6 +48,15 @@ def run(v, tier, seed):
             return [{"summary": True, "executions": 0, "yields": 0, "events": 0, "traces_written": 0, "trace_lines": 0, "messages_handled": 0, "messages_dropped_by_shutdown": 0, "distinct_plans": 0}], None
         return vlib.read_ndjson(rep), trp
 
+    def free(fiters):
+        # real pool threads without the scheduler: real blocking, timing noise at the hooks, a third of the runs with a concurrent shutdown
+        rep = W("free.ndjson")
+        rc, out, err = vlib.run([tp, "free", str(fiters), str(seed), rep], timeout=(900 if tier == "quick" else 3400))
+        if rc != 0:
+            vlib.harness_failed(v, rc, out, err, "tp free (seed %d)" % seed, "crashfree")
+            return [{"summary": True, "executions": 0, "messages_handled": 0}]
+        return vlib.read_ndjson(rep)
+
     def validate(trp, k):
         tr = "%s_%d.ndjson" % (trp, k)
         if not os.path.exists(tr) or os.path.getsize(tr) == 0: return k, True, None, None, tr, []
@@ -64,6 +76,7 @@ def run(v, tier, seed):
         if tier == "thorough":
             jobs += [ex.submit(model_check, "3c2t", 3, 2, 2, True), ex.submit(model_check, "2c2t3m", 2, 2, 3, True), ex.submit(model_check, "3c3t_noshut", 3, 3, 2, False)]
         f_ex = ex.submit(explore, iters, ntr)
+        f_fr = ex.submit(free, 1500 if tier == "quick" else 40000)
         rows, trp = f_ex.result()
         f_val = [ex.submit(validate, trp, k) for k in (1, 2, 3)] if trp else []
         for f in jobs:
@@ -80,12 +93,16 @@ def run(v, tier, seed):
             elif not accepted:
                 v.drift += 1
                 vlib.log("DRIFT property=C19 recorded trace (pool of %d) is not a behaviour of TPImpl: first unexplained line %s in %s" % (k, maxline, tr))
+        frows = f_fr.result(); fsumm = [r for r in frows if r.get("summary")][0]
+        for r in frows:
+            if r.get("violations"): v.violation("free-running threads: " + "; ".join(r["violations"]), r, tag="free")
     if summ["executions"] == 0 and not v.violations: raise vlib.MachineryError("nothing explored")
     cov = {"states": tot["states"], "transitions": tot["transitions"], "traces_validated_against_impl": summ["traces_written"],
            "random_executions": summ["executions"], "scheduling_decisions": summ["yields"], "events_checked": summ["events"],
            "trace_lines_validated_by_tlc": summ["trace_lines"], "messages_handled": summ["messages_handled"], "messages_dropped_by_shutdown": summ["messages_dropped_by_shutdown"],
+           "free_running_executions": fsumm["executions"], "free_running_messages_handled": fsumm["messages_handled"],
            "evaluations": summ["executions"], "distinct_nontrivial": summ["distinct_plans"],
-           "rule": "executions = seeded random workloads (pool of 1-3 threads, 1-3 clients, 0-3 Messages each, two submitting threads, random subset of clients unregistered while work is outstanding, pool destroyed at the end) x seeded random schedule; distinct = distinct workloads (a lower bound: schedules differ too)",
+           "rule": "executions = seeded random workloads (pool of 1-3 threads, 1-3 clients, 0-3 Messages each, two submitting threads, random subset of clients unregistered while work is outstanding, in half of them a third thread shuts the pool down at a random moment, pool destroyed at the end) x seeded random schedule; distinct = distinct workloads (a lower bound: schedules differ too)",
            "exhaustive": False, "model_runs": mc_notes, "samples": samples}
     assumptions = ["sequential consistency: the scheduler serialises threads at the hooked operations; weak-memory effects are out of scope",
                    "the pool is destroyed only after the submitting threads have made their last SendMessageToThreadPool call (destroying it earlier is a use-after-free by the caller, not a pool property); the model allows destruction at any moment",
